@@ -176,6 +176,16 @@ func cmdVerify(args []string) {
 			if !ok {
 				nfail++
 			}
+			slow := 0.0
+			slowSolver := ""
+			for _, o := range byName[n] {
+				if o.TimeS > slow {
+					slow, slowSolver = o.TimeS, o.Solver
+				}
+			}
+			if ok && slow > 2 && !*verbose {
+				fmt.Printf("   slow %-60s %.1fs (%s)\n", n, slow, slowSolver)
+			}
 			if *verbose || !ok {
 				st := "ok  "
 				if !ok {
